@@ -677,6 +677,8 @@ type Frame struct {
 	unlocks  int
 	gos      int
 	closes   int
+	recvs    int
+	makechans int
 	closures int
 	csEntry  *State // state right after the most recent lock acquisition performed by this frame
 	callbacks int
@@ -687,6 +689,7 @@ type deferred struct {
 	guard *Term
 	call  *ssa.CallCommon
 	fr    *Frame
+	block *ssa.BasicBlock // where the defer statement is
 }
 
 type dbgBind struct {
